@@ -17,7 +17,14 @@
 (* Encoder side (what lzma2_encoder.c does beyond the format, "profile"):     *)
 (*   after an uncompressed chunk the encoder has reset its own LZMA state, so *)
 (*   the next LZMA chunk must say so (level >= 1) for the decoder to mirror   *)
-(*   it; props never change inside a stream unless the caller changes them.   *)
+(*   it; props never change inside a stream unless the caller changes them:   *)
+(*   PropsUpdate = lzma_filters_update() with new lc/lp/pb between two chunks *)
+(*   (lzma2_encoder_options_update): the encoder resets its own LZMA state    *)
+(*   and switches to the new lc/lp/pb, so the next LZMA chunk must announce   *)
+(*   exactly that: new props byte (level >= 2, which implies state reset).    *)
+(*   Whether the encoder really did reset/switch is decided by the expansion: *)
+(*   the tokeniser decodes the following chunks with the announced props from *)
+(*   a fresh state and the result must be the input.                          *)
 (*                                                                            *)
 (* Counters cprod/cavail are kept as numbers so that multi-MiB streams can be *)
 (* judged from per-chunk aggregates without holding the bytes in TLC; in      *)
@@ -30,9 +37,10 @@ CONSTANTS ChunkUncompMax,     \* LZMA2_UNCOMPRESSED_MAX = 2^21
 VARIABLES needDict, needProps, needState,    \* obligations for the next chunk
           cprod, cavail,                     \* bytes produced / bytes in the dictionary (numbers)
           props,                             \* current props byte, -1 = none yet
+          cfgp,                              \* props byte the caller asked for (options / last PropsUpdate), -1 = not checked
           ch,                                \* open chunk: [kind |-> "none"] or [kind, usize, csize, start]
           fin                                \* end marker (control 0) seen
-l2vars == <<needDict, needProps, needState, cprod, cavail, props, ch, fin>>
+l2vars == <<needDict, needProps, needState, cprod, cavail, props, cfgp, ch, fin>>
 
 NoChunk == [kind |-> "none"]
 
@@ -50,7 +58,7 @@ L2Init(ds, preset, withLz) ==
     /\ needDict = (Len(preset) = 0)              \* lzma2_encoder_init: no reset needed with a preset dictionary
     /\ needProps = TRUE /\ needState = FALSE
     /\ cprod = 0 /\ cavail = Min(Len(preset), ds)
-    /\ props = -1 /\ ch = NoChunk /\ fin = FALSE
+    /\ props = -1 /\ cfgp = -1 /\ ch = NoChunk /\ fin = FALSE
 
 \* ---- LZMA chunk header
 LzmaChunkOK(ctl, usize, csize, pbyte) ==
@@ -64,6 +72,7 @@ LzmaChunkOK(ctl, usize, csize, pbyte) ==
     /\ needState => Level(ctl) >= 1                          \* encoder profile
     /\ (Level(ctl) >= 2) <=> (pbyte # -1)
     /\ pbyte # -1 => PropsValid(pbyte)
+    /\ (pbyte # -1 /\ cfgp # -1) => pbyte = cfgp             \* the props byte tells the truth about the lc/lp/pb in force
 
 LzmaChunkBegin(ctl, usize, csize, pbyte, withLz) ==
     /\ LzmaChunkOK(ctl, usize, csize, pbyte)
@@ -76,7 +85,7 @@ LzmaChunkBegin(ctl, usize, csize, pbyte, withLz) ==
             /\ IF Level(ctl) >= 1 THEN StateReset ELSE UNCHANGED <<reps, lzst>>
             /\ UNCHANGED <<out, base, dictSize, ended>>
        ELSE UNCHANGED lzvars
-    /\ UNCHANGED <<cprod, fin>>
+    /\ UNCHANGED <<cprod, cfgp, fin>>
 
 \* ---- end of an LZMA chunk, aggregate form: what the tokeniser measured for the whole chunk
 \*      a = [lit, match, rep (sum of 4), srep, eopm, maxdist (1-based, 0 = no copy), maxlen, minslack (-1 = no copy), outlen, used]
@@ -102,7 +111,7 @@ LzmaChunkEndAgg(a) ==
     /\ cprod' = cprod + ch.usize
     /\ cavail' = cavail + ch.usize
     /\ ch' = NoChunk
-    /\ UNCHANGED <<needDict, needProps, needState, props, fin>>
+    /\ UNCHANGED <<needDict, needProps, needState, props, cfgp, fin>>
     /\ UNCHANGED lzvars
 
 \* ---- end of an LZMA chunk, byte-exact form: the symbols have been applied to EncLz
@@ -113,7 +122,7 @@ LzmaChunkEndBytes ==
     /\ cprod' = cprod + ch.usize
     /\ cavail' = cavail + ch.usize
     /\ ch' = NoChunk
-    /\ UNCHANGED <<needDict, needProps, needState, props, fin>>
+    /\ UNCHANGED <<needDict, needProps, needState, props, cfgp, fin>>
     /\ UNCHANGED lzvars
 
 \* a symbol inside an LZMA chunk may not run past the chunk's uncompressed size
@@ -139,16 +148,26 @@ UncChunk(ctl, size, bytes, withLz) ==
             /\ dstart' = IF ctl = 1 THEN Len(out) ELSE dstart
             /\ UNCHANGED <<base, reps, lzst, dictSize, ended>>
        ELSE UNCHANGED lzvars
-    /\ UNCHANGED <<props, ch, fin>>
+    /\ UNCHANGED <<props, cfgp, ch, fin>>
+
+\* ---- lzma_filters_update() with different lc/lp/pb, legal only between chunks (sequence == SEQ_INIT)
+PropsUpdate(nb) ==
+    /\ ~fin /\ ch = NoChunk
+    /\ PropsValid(nb)
+    /\ nb # cfgp                                              \* (equal values are a no-op in the code)
+    /\ cfgp' = nb
+    /\ needProps' = TRUE /\ needState' = TRUE
+    /\ UNCHANGED <<needDict, cprod, cavail, props, ch, fin>>
+    /\ UNCHANGED lzvars
 
 \* ---- end marker
 EndChunk ==
     /\ ~fin /\ ch = NoChunk
     /\ fin' = TRUE
-    /\ UNCHANGED <<needDict, needProps, needState, cprod, cavail, props, ch>>
+    /\ UNCHANGED <<needDict, needProps, needState, cprod, cavail, props, cfgp, ch>>
     /\ UNCHANGED lzvars
 
 L2TypeOK ==
     /\ needDict \in BOOLEAN /\ needProps \in BOOLEAN /\ needState \in BOOLEAN
-    /\ cprod \in Nat /\ cavail \in Nat /\ props \in -1..224 /\ fin \in BOOLEAN
+    /\ cprod \in Nat /\ cavail \in Nat /\ props \in -1..224 /\ cfgp \in -1..224 /\ fin \in BOOLEAN
 =============================================================================
